@@ -89,7 +89,7 @@ def coq_build(targets=None, timeout=3000):
                 return False, out
         tg = " ".join(targets) if targets else ""
         rc, out = sh(
-            f"timeout {timeout} make -j{NCPU} {tg}", cwd=COQ, timeout=timeout + 30
+            f"timeout {timeout} make -j{NCPU} COQC='timeout 900 coqc' {tg}", cwd=COQ, timeout=timeout + 30
         )
         return rc == 0, out
     finally:
